@@ -15,6 +15,7 @@ import (
 	"github.com/verily-src/fhirpath-go/fhirpath/system"
 	"github.com/verily-src/fhirpath-go/fhirpath/verifhook"
 	"google.golang.org/protobuf/proto"
+	"google.golang.org/protobuf/reflect/protoreflect"
 )
 
 func init() { props["C01"] = runC01 }
@@ -190,6 +191,91 @@ func runC01(cfg config) {
 			record("evaluate", fmt.Sprintf("Evaluate(%q) on a generated %s", src, name), func() { verifhook.Evaluate(e, []proto.Message{res}) })
 		}
 	}
+	// ---- a full sweep (not a sample): every function of the table that takes no or one argument, on every numeric
+	// boundary focus, with every numeric boundary argument ------------------------------------------------------------
+	{
+		bounds := verifhook.TableBounds(true)
+		var fnames []string
+		for nme := range bounds {
+			fnames = append(fnames, nme)
+		}
+		sortStrings(fnames)
+		foci := []string{"0", "1", "(-1)", "1.5", "2147483647", "(-2147483647 - 1)", "123456789012345678901234567890.12345678", "0.00000001", "(700.exp() * 700.exp())", "(0 - 700.exp() * 700.exp())", "'12'", "4 'mg'", "@2020-02-29", "{}"}
+		argsPool := []string{"0", "1", "-1", "2147483647", "-2147483647 - 1", "1.5", "123456789012345678901234567890.12345678", "700.exp() * 700.exp()", "'a'", "{}"}
+		for _, fn := range fnames {
+			lo, hi := bounds[fn][0], bounds[fn][1]
+			for _, f := range foci {
+				var calls []string
+				if lo == 0 {
+					calls = append(calls, fmt.Sprintf("%s.%s()", f, fn))
+				}
+				if lo <= 1 && (hi >= 1 || hi < lo) {
+					for _, a := range argsPool {
+						calls = append(calls, fmt.Sprintf("%s.%s(%s)", f, fn, a))
+					}
+				}
+				if lo <= 2 && (hi >= 2 || hi < lo) {
+					for _, a := range []string{"0", "2147483647", "-1", "'a'"} {
+						calls = append(calls, fmt.Sprintf("%s.%s(%s, %s)", f, fn, a, pick(r, argsPool)))
+					}
+				}
+				for _, src := range calls {
+					src := src
+					record("evaluate", fmt.Sprintf("Compile+Evaluate(%q) (boundary sweep)", src), func() {
+						if e, err := fhirpath.Compile(src, compopts.WithExperimentalFuncs()); err == nil {
+							verifhook.Evaluate(e, []proto.Message{patients[0]})
+						}
+					})
+				}
+			}
+		}
+	}
+	// ---- every supported kind of evaluate option at its edges: nested collections as variables, clocks far away ------------
+	{
+		nested := system.Collection{system.Collection{system.Integer(1), system.Collection{system.String("a")}}, system.Integer(2), system.Collection{}}
+		for _, src := range []string{"%x", "%x = %x", "%x != %x", "%x ~ %x", "%x.count()", "%x | %x", "%x.distinct()", "%x.first() + 1", "%x.where($this = 1)", "%x.select($this.toString())", "%x in %x", "%x.subsetOf(%x)", "%x.combine(%x).isDistinct()", "%x.exclude(%x)", "%x.intersect(%x)", "%x contains 1", "%x.all($this is Integer)", "%x.toString()", "%x & 'a'", "-%x", "%x[0]", "%x.tail()", "%x.children()", "%x.descendants()", "%x.type()"} {
+			src := src
+			record("evaluate", fmt.Sprintf("Evaluate(%q) with a nested collection as %%x", src), func() {
+				if e, err := fhirpath.Compile(src, compopts.WithExperimentalFuncs()); err == nil {
+					verifhook.Evaluate(e, []proto.Message{patients[0]}, evalopts.EnvVariable("x", nested))
+				}
+			})
+		}
+		clocks := []time.Time{time.Date(10000, 1, 1, 0, 0, 0, 0, time.UTC), time.Date(-1, 6, 1, 0, 0, 0, 0, time.UTC), time.Date(0, 1, 1, 0, 0, 0, 0, time.UTC), time.Date(9999, 12, 31, 23, 59, 59, 999999999, time.FixedZone("e", 14*3600)),
+			time.Date(1, 1, 1, 0, 0, 0, 0, time.FixedZone("w", -12*3600)), time.Date(292277026596, 12, 4, 15, 30, 7, 0, time.UTC), time.Unix(-1<<62, 0), {}, time.Date(2024, 2, 29, 12, 0, 0, 0, time.FixedZone("odd", 5*3600+53*60+28))}
+		for _, src := range []string{"now()", "today()", "timeOfDay()", "now() + 1 year", "today() - 1 day", "now() > @2020", "today().toString()", "now() = now()", "Patient.birthDate < today()", "today() + 8000 years"} {
+			for ci, clk := range clocks {
+				src, clk := src, clk
+				record("evaluate", fmt.Sprintf("Evaluate(%q) with OverrideTime #%d", src, ci), func() {
+					if e, err := fhirpath.Compile(src); err == nil {
+						verifhook.Evaluate(e, []proto.Message{patients[0]}, evalopts.OverrideTime(clk))
+					}
+				})
+			}
+		}
+	}
+	// ---- hollow resources: legal messages with unset choices, empty contained resources, enum numbers without a name ---------
+	{
+		hollowNames := []string{"Patient", "Observation", "Bundle", "Encounter", "MedicationRequest", "Questionnaire", "Parameters", "DiagnosticReport", "Condition", "Claim"}
+		for _, name := range hollowNames {
+			for round := 0; round < 2*scale; round++ {
+				res := g.resource(name, 3)
+				hollow(r, res.ProtoReflect(), 0.35)
+				for i, e := range gexprs {
+					e, src := e, gsrc[i]
+					record("evaluate", fmt.Sprintf("Evaluate(%q) on a hollowed %s", src, name), func() { verifhook.Evaluate(e, []proto.Message{res}) })
+				}
+				for _, src := range []string{name + ".descendants().select($this = $this)", name + ".children().children()", name + ".descendants().toString()", name + ".contained.descendants()", name + ".entry.resource.id", name + ".descendants().where($this = 'male')", name + ".descendants().select($this ~ 'x')", name + ".descendants().select($this in ('a' | 'b'))", name + ".descendants().distinct()"} {
+					src := src
+					record("evaluate", fmt.Sprintf("Compile+Evaluate(%q) on a hollowed %s", src, name), func() {
+						if e, err := fhirpath.Compile(src); err == nil {
+							verifhook.Evaluate(e, []proto.Message{res})
+						}
+					})
+				}
+			}
+		}
+	}
 	// ---- state that builds up over calls: many distinct regular expressions, many distinct expressions ------------------
 	for k := 0; k < 150; k++ {
 		src := fmt.Sprintf("'item-%d'.matches('^item-%d$') and 'item-%d'.replaceMatches('m-%d', 'x') = 'itex'", k, k, k, k)
@@ -259,6 +345,38 @@ func sortStrings(s []string) {
 	for i := 1; i < len(s); i++ {
 		for j := i; j > 0 && s[j] < s[j-1]; j-- {
 			s[j], s[j-1] = s[j-1], s[j]
+		}
+	}
+}
+
+// hollow empties parts of a message while keeping it a legal proto: oneofs lose their member, enum fields get a number
+// their enum does not define, contained resources and choice wrappers stay behind empty.
+func hollow(r *rng, m protoreflect.Message, p float64) {
+	if m.Descriptor().FullName() == "google.protobuf.Any" {
+		return
+	}
+	fds := m.Descriptor().Fields()
+	for i := 0; i < fds.Len(); i++ {
+		fd := fds.Get(i)
+		if !m.Has(fd) || fd.IsMap() {
+			continue
+		}
+		switch {
+		case fd.Kind() == protoreflect.EnumKind && !fd.IsList():
+			if float64(r.intn(1000))/1000 < p/2 {
+				m.Set(fd, protoreflect.ValueOfEnum(protoreflect.EnumNumber(9000+r.intn(5))))
+			}
+		case fd.Kind() == protoreflect.MessageKind && fd.IsList():
+			l := m.Mutable(fd).List()
+			for k := 0; k < l.Len(); k++ {
+				hollow(r, l.Get(k).Message(), p)
+			}
+		case fd.Kind() == protoreflect.MessageKind:
+			if fd.ContainingOneof() != nil && float64(r.intn(1000))/1000 < p {
+				m.Clear(fd) // the wrapper stays, its choice is gone
+				continue
+			}
+			hollow(r, m.Mutable(fd).Message(), p)
 		}
 	}
 }
